@@ -6246,7 +6246,8 @@ def declare_rules(ck, thorough):
             "stream object that is written or read, cleared (or re-filled by read_stream) and used again - the second object lands at the stale position", 4)
     ck.rule("E7.size-table-follows-array", "every member function of a LAFEM container that puts a freshly allocated array into this->_elements/_indices (push_back or "
             "replacement of a slot) records the extent of that allocation in the matching entry of _elements_size/_indices_size on every path through it; the serialiser, "
-            "_serialized_size and clone copy exactly that many entries; breaks for: a sparse vector grown entry by entry past its allocation block and then persisted", 18)
+            "_serialized_size and clone copy exactly that many entries; breaks for: a sparse vector grown entry by entry past its allocation block and then persisted", 14)
+    # (18 on the pinned tree; one obligation per allocation site, so de-duplicating constructor prologues into a helper lowers the count)
     ck.rule("E12.meta-checkpoint", "meta containers: set_checkpoint_data appends [u64 length of first][first][rest] and returns the bytes appended; restore_from_checkpoint_data reads "
             "that word, hands exactly [8, 8+length) to the same sub-object and the remainder to the rest; get_checkpoint_size covers it", 60)
     ck.rule("E12.length-width", "a length word read from a checkpoint stream is used in offset arithmetic at its full width (no narrowing to a 32-bit signed type); "
